@@ -1488,6 +1488,7 @@ func c09Templates(r *Rng, tier string, rep *Report) {
 		{"<xml>{{\"</xml>\"}}</xml>", "{{", "}}", "xml"}, {"<![CDATA[{{\"]]>\"}}]]>", "{{", "}}", "cdata"},
 		{"<script><% \"</script>\" %></script>", "<%", "%>", "rawtext-lt"}, {"<script><!-- {{ \"-->\" }} --></script>", "{{", "}}", "script-comment"},
 		{"<a b=c{{ x }}>", "{{", "}}", "attrval-unquoted-mid"},
+		{"<plaintext>a{{x}}b", "{{", "}}", "plaintext"}, {"<PLAINTEXT ><% \"", "<%", "%>", "plaintext"},
 		// and the contexts in which it does
 		{"a{{ \"<b>\" }}c", "{{", "}}", "text"}, {"<script>{{ \"</script>\" }}</script>", "{{", "}}", "rawtext"}, {"<a{{ \">\" }}>", "{{", "}}", "tagname"},
 		{"<a {{ \">\" }}b=c>", "{{", "}}", "attrname"}, {"<a b={{ \">\" }}{{x}}>", "{{", "}}", "attrval-start"}, {"<a b=\"x{{ '\"' }}\">", "{{", "}}", "attrval-quoted"},
